@@ -48,6 +48,8 @@ CURATED = {
 SCALARS = [
     None, True, False, 0, 1, -1, 2, 3, 5, 7, 10, 0.0, 1.0, -0.0, 0.5, 1.5, 2.5, -2.5,
     "", "a", "b", "ab", "abc", "foo", "bar", "é", "x_a", "1", "A",
+    # strings spelled like Python constants / markers (a literal compared by its text looks "unset")
+    "None", "True", "NotPassed", "[]",
 ]
 
 
@@ -194,7 +196,14 @@ def numeric_candidates(rng, schema):
                 except (OverflowError, ZeroDivisionError, ValueError):
                     pass
         cands += base + [mult * 1.5, mult + 0.25, mult / 2]
-    return cands
+        # far beyond 2**53 (where a float quotient can no longer tell a multiple from its neighbour) and at
+        # the top of the float range (where the quotient overflows)
+        try:
+            cands += [mult * 2 ** 60, mult * 2 ** 60 + 1, mult * (2 ** 53 + 1), 2 ** 53 + 1, 10 ** 30 + 1, 1e308,
+                      -1e308, 1.7976931348623157e308, 1e300, 2.0 ** 1000]
+        except OverflowError:
+            pass
+    return [c for c in cands if not (isinstance(c, float) and (c != c or c in (float("inf"), float("-inf"))))]
 
 
 def satisfy_once(rng, schema, root, depth=0):
@@ -469,10 +478,17 @@ def mutate(rng, value, keys=None):
     if isinstance(value, bool):
         return rng.choice([not value, int(value), None])
     if isinstance(value, (int, float)):
-        return rng.choice(
-            [value + 1, value - 1, value + 0.5, value * 2, -value, float(value),
-             int(value) if value == int(value) else value, str(value), None]
-        )
+        try:
+            out = rng.choice(
+                [value + 1, value - 1, value + 0.5, value * 2, -value, float(value),
+                 int(value) if value == int(value) else value, str(value), None,
+                 value * 2 ** 60, value * 2 ** 60 + 1, 1e308, -1e308, 2 ** 53 + 1]
+            )
+        except (OverflowError, ValueError):
+            return value
+        if isinstance(out, float) and (out != out or out in (float("inf"), float("-inf"))):
+            return value
+        return out
     if isinstance(value, str):
         return rng.choice(
             [value + "a", value[:-1], value + value, "a" + value, value.upper(), "", 0, None, [value]]
@@ -501,6 +517,18 @@ def batch_for_schema(rng, schema, root=None, count=8, lookalikes=True):
             out.append(satisfy(rng, schema, root, tries=2))
         else:
             out.append(random_value(rng, 2))
+    if isinstance(schema, dict) and isinstance(schema.get("dependencies"), dict):
+        # dependency probes: an otherwise valid object plus the triggering member (decisive for a dependency
+        # whose value is `false`, an empty list, or a schema)
+        for key in list(schema["dependencies"])[:3]:
+            base = next((copy.deepcopy(seed) for seed in seeds if isinstance(seed, dict)), {})
+            if key not in base:
+                props = schema.get("properties") if isinstance(schema.get("properties"), dict) else {}
+                try:
+                    base[key] = satisfy(rng, props.get(key, True), root, tries=2)
+                except Exception:  # pylint: disable=broad-except
+                    base[key] = 1
+            out.append(base)
     if rng.random() < 0.5:
         # a sweep of small numbers / short strings: cheap, and decisive for overlapping compositions
         out += rng.sample([-3, -1, 0, 1, 2, 3, 4, 5, 6, 7, 8, 9, 10, 11, 12, 2.0, 4.5, "a", "ab", "abc", "abab", "b"], k=6)
